@@ -24,7 +24,7 @@ namespace
     };
     struct ledger_t
     {
-        std::set<const void*> live;
+        std::map<const void*, unsigned char> live; // address -> first byte the element holds (checked by its destructor)
         long constructed = 0, destroyed = 0;
         long countdown   = -1; // >= 0: the construction that brings it to 0 throws
         long serial      = 0;
@@ -45,14 +45,27 @@ namespace
                 countdown = -1;
                 throw tagged_failure{++serial};
             }
-            if (!live.insert(p).second)
+            if (!live.insert({p, 0}).second)
                 problem("constructed-twice", "an element was constructed at an address where a live element already is");
             ++constructed;
         }
-        void on_destroy(const void* p) noexcept
+        void set_value(const void* p, unsigned char v)
         {
-            if (!live.erase(p))
+            auto it = live.find(p);
+            if (it != live.end())
+                it->second = v;
+        }
+        void on_destroy(const void* p, unsigned char v) noexcept
+        {
+            auto it = live.find(p);
+            if (it == live.end())
                 problem("destroyed-not-constructed", "an element was destroyed that is not live (destroyed twice or never constructed)");
+            else
+            {
+                if (it->second != v)
+                    problem("destroyed-after-overwrite", "an element's destructor ran on memory that no longer holds the element (its contents were overwritten first)");
+                live.erase(it);
+            }
             ++destroyed;
         }
         void check(const char* prop)
@@ -77,30 +90,35 @@ namespace
         {
             L().on_construct(this);
             std::memset(v, 0x11, S);
+            L().set_value(this, v[0]);
         }
         explicit elem(unsigned char x)
         {
             L().on_construct(this);
             std::memset(v, x, S);
+            L().set_value(this, v[0]);
         }
         elem(const elem& o)
         {
             L().on_construct(this);
             std::memcpy(v, o.v, S);
+            L().set_value(this, v[0]);
         }
         elem(elem&& o)
         {
             L().on_construct(this);
             std::memcpy(v, o.v, S);
+            L().set_value(this, v[0]);
         }
         elem& operator=(const elem& o)
         {
             std::memcpy(v, o.v, S);
+            L().set_value(this, v[0]);
             return *this;
         }
         ~elem()
         {
-            L().on_destroy(this);
+            L().on_destroy(this, v[0]);
         }
         bool operator==(const elem& o) const
         {
